@@ -199,6 +199,7 @@ structure Watch where
   pos      : Nat                   -- next batch of the subject's topic buffer
   st       : WState
   released : Bool                  -- `freeBuf` ran (sync.Once)
+  lastIdx  : Nat := 0              -- only used by `nextLive` (a repaired guard that remembers the last index)
   -- history variables (never read by the operations; used to state the theorems)
   gD         : Nat := 0            -- number of dispatched events when the snapshot it got was taken
   gP         : Nat := 0            -- number of committed events when the snapshot it got was taken
@@ -293,6 +294,13 @@ def Query.subject (q : Query) : Bytes × Query :=
 /-- `watchSnapshot`: upserts of everything listed + EndOfSnapshot, all at the current event index -/
 def snapshotBatch (db : DB) (sq : Query) : List Ev :=
   (list db.rows sq).map (fun r => ⟨db.evIdx, .upsert r⟩) ++ [⟨db.evIdx, .eos⟩]
+
+/-- What a snapshot handler would build if it took the listing in one memdb transaction (`listDb`) and read
+    the event index in another one (`idxDb`). `watchSnapshot` as written uses ONE transaction for both, i.e.
+    `snapshotBatch db = snapshotBatchTwoTxn db db`; every statement about snapshots (`snapshot_is_listing`,
+    `watch_stream_faithful`, …) rests on that. -/
+def snapshotBatchTwoTxn (listDb idxDb : DB) (sq : Query) : List Ev :=
+  (list listDb.rows sq).map (fun r => ⟨idxDb.evIdx, .upsert r⟩) ++ [⟨idxDb.evIdx, .eos⟩]
 
 /-- `eventSnapshot.spliceFromTopicBuffer` started at the buffer head: the head item itself is kept when
     its index is greater than the snapshot index (possible only after a restore reset the index);
@@ -390,6 +398,43 @@ def Watch.next (w : Watch) (buf : List (List Ev)) : Watch × NextRes :=
       | none =>
         ({ w with snap := none, pos := w.pos + (pending.length - fromSnap) }, .block)
 
+/-! #### the repaired variant of the index guard
+
+`nextEvent` as written evaluates its guard against a local that is always 0 (`Watch.next` above). A
+repaired store would keep the index of the last accepted batch in the `Watch` (`w.idx`) across calls, so
+that batches not newer than the snapshot are dropped. `Watch.nextLive` is that variant. The harness probes
+the implementation once per run (does the lagging-publisher witness re-deliver an old event?) and tells
+the driver which variant to compare with, so that a repair of known finding
+`watch:stale-event-after-snapshot` is not reported as a difference. All theorems are about `Watch.next`. -/
+
+def nextFromBatchesLive (q : Query) : Nat → List (List Ev) → Nat → Option (Ev × List Ev) × Nat × Nat
+  | g, [], n => (none, n, g)
+  | g, b :: bs, n =>
+    if guardSkips g b then nextFromBatchesLive q g bs (n + 1)
+    else
+      let g' := match b with | e :: _ => e.idx | [] => g
+      match takeFirst q b with
+      | some (e, rest) => (some (e, rest), n + 1, g')
+      | none => nextFromBatchesLive q g' bs (n + 1)
+
+def Watch.nextLive (w : Watch) (buf : List (List Ev)) : Watch × NextRes :=
+  match takeFirst w.q w.inbox with
+  | some (e, rest) => ({ w with inbox := rest, gDelivered := w.gDelivered ++ [e.ev] }, .ev e.ev)
+  | none =>
+    let w := { w with inbox := [] }
+    match w.st with
+    | .forceClosed => (w, .closed)
+    | .unsub => (w, .unsubErr)
+    | .opened =>
+      let pending := (match w.snap with | some b => [b] | none => []) ++ buf.drop w.pos
+      let fromSnap := match w.snap with | some _ => 1 | none => 0
+      match nextFromBatchesLive w.q w.lastIdx pending 0 with
+      | (some (e, rest), n, g) =>
+        ({ w with inbox := rest, snap := none, pos := w.pos + (n - fromSnap), lastIdx := g,
+                  gDelivered := w.gDelivered ++ [e.ev] }, .ev e.ev)
+      | (none, _, g) =>
+        ({ w with snap := none, pos := w.pos + (pending.length - fromSnap), lastIdx := g }, .block)
+
 def setAt {α : Type} (l : List α) (i : Nat) (a : α) : List α :=
   match l, i with
   | [], _ => []
@@ -402,11 +447,11 @@ def World.bufOf (w : World) (wt : Watch) : List (List Ev) :=
   | some s => s.buf
   | none => []
 
-def World.watchNext (w : World) (h : Nat) : World × Option NextRes :=
+def World.watchNext (w : World) (h : Nat) (live : Bool := false) : World × Option NextRes :=
   match w.watches[h]? with
   | none => (w, none)
   | some wt =>
-    let (wt', r) := wt.next (w.bufOf wt)
+    let (wt', r) := if live then wt.nextLive (w.bufOf wt) else wt.next (w.bufOf wt)
     ({ w with watches := setAt w.watches h wt' }, some r)
 
 /-- `Watch.Close` → `Subscription.Unsubscribe` + `freeBuf` (once) -/
@@ -463,7 +508,8 @@ inductive WOut where
   | unit
 deriving DecidableEq, Repr
 
-def World.step (w : World) : WOp → World × WOut
+def World.step (w : World) (op : WOp) (live : Bool := false) : World × WOut :=
+  match op with
   | .bwrite res => let (w', r, stored) := w.backendWrite res; (w', .wres r stored)
   | .swrite res vsn => let (w', r) := w.storeWrite res vsn; (w', .wres r res)
   | .delete id vsn => let (w', ok) := w.delete id vsn; (w', .dres ok)
@@ -473,7 +519,7 @@ def World.step (w : World) : WOp → World × WOut
   | .list q => (w, .rows (list w.db.rows q))
   | .listOwner id => (w, .rows (listByOwner w.db.rows id))
   | .wopen q => let (w', h) := w.watchOpen q; (w', .handle h)
-  | .wnext h => let (w', r) := w.watchNext h; (w', .next r)
+  | .wnext h => let (w', r) := w.watchNext h live; (w', .next r)
   | .wclose h => let (w', ok) := w.watchClose h; (w', .flag ok)
   | .pump => let (w', ok) := w.pump; (w', .flag ok)
   | .snap => (w, .rows w.db.rows)
